@@ -172,6 +172,11 @@ func driveClientCase(c *ev.Collector, cs *cliCase, extra ...string) (violation, 
 	if len(v.Problems) > 0 {
 		return v.Problems[0] + " [dialogue " + v.Key + "]", ""
 	}
+	if cs.Policy != nil {
+		if problem, _ := checkPolicySequence(cs, tr); problem != "" {
+			return problem + " [server-sig-algs " + sigAlgsString(cs.Script.SigAlgs) + "]", ""
+		}
+	}
 	classes := append([]string{}, extra...)
 	classes = append(classes, v.Classes...)
 	for _, s := range v.Soft {
@@ -200,7 +205,13 @@ type goCase struct {
 
 func runGoCase(gc *goCase) (clientErr, serverErr, trouble string) {
 	dumpCase(gc)
-	cfg, err := buildClientConfig(&gc.Client)
+	var closers []func()
+	defer func() {
+		for _, f := range closers {
+			f()
+		}
+	}()
+	cfg, err := buildClientConfig(&gc.Client, &closers)
 	if err != nil {
 		return "", "", "building client config: " + err.Error()
 	}
@@ -565,9 +576,65 @@ func TestC34(t *testing.T) {
 	}
 	c.Exhaustive("C34: first signer (RSA / RSA cert x 7 restrictions, ed25519, ed25519 cert, ecdsa) x 8 server-sig-algs values x 5 answers to the first key query x 2 following method lists, this shard's share", n)
 
-	// (2) random client configurations against random scripts, and compatible Go servers
+	// (1b) algorithm selection matrix against policy servers that accept the SAME key under some algorithm
+	// names only: signer kind x server-sig-algs class x server acceptance x refusal style; the exact request
+	// sequence (incl. the position of the RSA-certificate compat re-query) and the outcome are predicted
+	nsel := 0
+	for _, sk := range selSignerKinds() {
+		accs := []string{"all", "none"}
+		if isRSAKey(sk.Signer.Key) {
+			accs = []string{"legacy-only", "sha256-only", "sha512-only", "all", "none"}
+		}
+		for _, sa := range selSigAlgs {
+			for _, acc := range accs {
+				for _, qr := range []string{"failure", "pkok-wrong-algo"} {
+					unit++
+					if !ev.Mine(unit) {
+						continue
+					}
+					cs := selCase(sk, sa, acc, qr, unit)
+					viol, trouble := driveClientCase(c, cs, "selection-matrix", "sel:"+sk.Name+" | sig-algs="+sa.Name+" | server-accepts="+acc, "sel-refusal:"+qr)
+					if trouble != "" {
+						c.Inconclusive(trouble)
+						t.Fatalf("harness trouble: %s", trouble)
+					}
+					if viol != "" {
+						c.Violation(viol, "")
+						t.Fatalf("VF-VIOLATION: property=C34 %s", viol)
+					}
+					nsel++
+				}
+			}
+		}
+	}
+	c.Exhaustive("C34: algorithm selection: 24 signer kinds x 9 server-sig-algs classes x server acceptance per algorithm (5 for RSA, 2 otherwise) x 2 refusal styles, exact request sequence predicted, this shard's share", nsel)
+
+	// (2) random client configurations against random scripts / policy servers, and compatible Go servers
 	rapid.Check(t, func(rt *rapid.T) {
-		if rapid.IntRange(0, 9).Draw(rt, "half") < 6 {
+		half := rapid.IntRange(0, 9).Draw(rt, "half")
+		if half < 3 {
+			spec := drawCliSpec(rt)
+			for i := range spec.Auth {
+				for j := range spec.Auth[i].Signers {
+					sg := &spec.Auth[i].Signers[j]
+					if sg.Algos == nil && rapid.IntRange(0, 4).Draw(rt, "agent") == 0 {
+						sg.Agent = true
+					}
+				}
+			}
+			pol := drawPolicy(rt, &spec)
+			cs := &cliCase{Client: spec, Script: cliScript{SigAlgs: rapid.SampledFrom(polSigAlgs).Draw(rt, "sigalgs")}, Policy: pol}
+			viol, trouble := driveClientCase(c, cs, "policy-random")
+			if trouble != "" {
+				c.Inconclusive(trouble)
+				rt.Fatalf("harness trouble: %s", trouble)
+			}
+			if viol != "" {
+				rt.Fatalf("VF-VIOLATION: property=C34 %s", viol)
+			}
+			return
+		}
+		if half < 6 {
 			spec := drawCliSpec(rt)
 			cs := &cliCase{Client: spec, Script: drawScript(rt, &spec)}
 			viol, trouble := driveClientCase(c, cs, "scripted")
@@ -596,4 +663,151 @@ func TestC34(t *testing.T) {
 			c.Sample(map[string]any{"scenario": gc.Label, "client": gc.Client, "server_pkaa": gc.Server.PKAA, "key": key})
 		}
 	})
+}
+
+// ---- algorithm selection against policy servers ----
+
+type selSigner struct {
+	Name   string
+	Signer cliSigner
+}
+
+func selSignerKinds() []selSigner {
+	out := []selSigner{
+		{"rsa/plain", cliSigner{Key: "C"}}, {"rsa/agent", cliSigner{Key: "C", Agent: true}},
+		{"rsa-cert/plain", cliSigner{Key: "CertC"}}, {"rsa-cert/agent", cliSigner{Key: "CertC", Agent: true}},
+		{"ed25519/plain", cliSigner{Key: "A"}}, {"ed25519/agent", cliSigner{Key: "A", Agent: true}}, {"ed25519-cert/plain", cliSigner{Key: "E"}}, {"ed25519-cert/agent", cliSigner{Key: "E", Agent: true}},
+		{"ecdsa/plain", cliSigner{Key: "D"}}, {"ecdsa-cert/plain", cliSigner{Key: "CertD"}}, {"ecdsa384/agent", cliSigner{Key: "D384", Agent: true}}, {"ecdsa521-cert/plain", cliSigner{Key: "CertD521"}},
+	}
+	for _, r := range rsaRestrictions[2:] {
+		out = append(out, selSigner{"rsa/restricted[" + strings.Join(r, "+") + "]", cliSigner{Key: "C", Algos: r}})
+		out = append(out, selSigner{"rsa-cert/restricted[" + strings.Join(r, "+") + "]", cliSigner{Key: "CertC", Algos: r}})
+	}
+	return out
+}
+
+type namedSigAlgs struct {
+	Name  string
+	Value *string
+}
+
+var selSigAlgs = []namedSigAlgs{
+	{"absent", nil}, {"empty", sp("")}, {"sha2-only", sp("rsa-sha2-256,rsa-sha2-512")}, {"ssh-rsa-only", sp("ssh-rsa")},
+	{"sha2+ssh-rsa", sp("rsa-sha2-512,rsa-sha2-256,ssh-rsa,ssh-ed25519")}, {"unknown-names", sp("foo@example.com,bar")},
+	{"unknown+sha512", sp("foo@example.com,rsa-sha2-512")}, {"cert-algs-listed", sp("rsa-sha2-256-cert-v01@openssh.com,ssh-ed25519-cert-v01@openssh.com,ssh-ed25519")},
+	{"non-rsa-only", sp("ssh-ed25519,ecdsa-sha2-nistp256")},
+}
+
+var polSigAlgs = func() []*string {
+	var out []*string
+	for _, s := range selSigAlgs {
+		out = append(out, s.Value)
+	}
+	return append(out, nil, sp("rsa-sha2-512,ssh-rsa"))
+}()
+
+// acceptedAlgos lists the algorithm names under which a policy server of the
+// given class accepts key.
+func acceptedAlgos(key *ra.Key, class string) []string {
+	suffix := ""
+	if key.IsCert() {
+		suffix = ra.CertSuffix
+	}
+	rsa := key.Plain().Format == ra.AlgoRSA
+	switch class {
+	case "all":
+		return key.AlgoNames()
+	case "legacy-only":
+		if rsa {
+			return []string{ra.AlgoRSA + suffix}
+		}
+	case "sha256-only":
+		if rsa {
+			return []string{ra.AlgoRSA256 + suffix}
+		}
+	case "sha512-only":
+		if rsa {
+			return []string{ra.AlgoRSA512 + suffix}
+		}
+	}
+	return nil
+}
+
+func selCase(sk selSigner, sa namedSigAlgs, acc, refusal string, unit int) *cliCase {
+	key := ra.TestKeys().ByName[sk.Signer.Key]
+	// the signer under test first, then two other keys the server refuses / accepts, so that "after all other
+	// signers" is observable; password as the method that follows
+	third := cliSigner{Key: "C2", Algos: []string{ra.AlgoRSA512, ra.AlgoRSA}}
+	spec := cliSpec{User: "u1", Auth: []cliMethod{
+		{Kind: "publickey", Signers: []cliSigner{sk.Signer, {Key: "B"}, third}},
+		{Kind: "password", Passwords: []string{"pw"}},
+	}}
+	if unit%3 == 0 {
+		spec.Auth[0], spec.Auth[1] = spec.Auth[1], spec.Auth[0]
+	}
+	pol := &policy{
+		NoneList:    []string{"publickey", "password"},
+		Stages:      []policyStage{{Methods: []string{"publickey", "password"}, Result: map[string]string{"publickey": "success", "password": "failure"}}},
+		PKAccept:    map[string][]string{sk.Signer.Key: acceptedAlgos(key, acc)},
+		QueryReject: refusal,
+		Password:    "other",
+		KbdRounds:   1,
+	}
+	if unit%5 == 0 {
+		// the last key is acceptable: reached only if the client walks the list in order
+		pol.PKAccept["C2"] = []string{ra.AlgoRSA512, ra.AlgoRSA}
+	}
+	if unit%7 == 0 {
+		pol.Stages[0].Result["publickey"] = "partial"
+		pol.Stages = append(pol.Stages, policyStage{Methods: []string{"password"}, Result: map[string]string{"password": "success"}})
+		pol.Password = "pw"
+	}
+	return &cliCase{Client: spec, Script: cliScript{SigAlgs: sa.Value}, Policy: pol}
+}
+
+func drawSubset(rt *rapid.T, lbl string, from []string, p int) []string {
+	out := []string{}
+	for _, x := range from {
+		if rapid.IntRange(0, 9).Draw(rt, lbl+"."+x) < p {
+			out = append(out, x)
+		}
+	}
+	return out
+}
+
+func drawPolicy(rt *rapid.T, spec *cliSpec) *policy {
+	names := []string{"password", "publickey", "keyboard-interactive", "hostbased"}
+	pol := &policy{
+		NoneList:    drawSubset(rt, "nonelist", names, 8),
+		PKAccept:    map[string][]string{},
+		QueryReject: rapid.SampledFrom([]string{"failure", "failure", "pkok-wrong-algo", "pkok-wrong-blob"}).Draw(rt, "queryreject"),
+		Password:    rapid.SampledFrom([]string{"pw", "pw", "pw2", "pw3", "nope"}).Draw(rt, "password"),
+		KbdAnswer:   rapid.SampledFrom([]string{"right", "right", "other"}).Draw(rt, "kbdanswer"),
+		KbdRounds:   rapid.IntRange(1, 2).Draw(rt, "kbdrounds"),
+	}
+	if rapid.IntRange(0, 5).Draw(rt, "pkfaillist") == 0 {
+		pol.PKFailList = drawSubset(rt, "pkfail", []string{"password", "keyboard-interactive", "publickey"}, 4)
+	}
+	n := rapid.IntRange(1, 3).Draw(rt, "stages")
+	for i := 0; i < n; i++ {
+		st := policyStage{Methods: drawSubset(rt, fmt.Sprintf("st%d.methods", i), names, 7), Result: map[string]string{}}
+		for _, m := range names[:3] {
+			st.Result[m] = rapid.SampledFrom([]string{"success", "success", "partial", "partial", "failure"}).Draw(rt, fmt.Sprintf("st%d.%s", i, m))
+		}
+		pol.Stages = append(pol.Stages, st)
+	}
+	for _, m := range spec.Auth {
+		for _, sg := range m.Signers {
+			key := ra.TestKeys().ByName[sg.Key]
+			switch rapid.IntRange(0, 3).Draw(rt, "accept."+sg.Key) {
+			case 0:
+				pol.PKAccept[sg.Key] = key.AlgoNames()
+			case 1:
+				pol.PKAccept[sg.Key] = drawSubset(rt, "acc."+sg.Key, key.AlgoNames(), 5)
+			case 2:
+				pol.PKAccept[sg.Key] = acceptedAlgos(key, "legacy-only")
+			}
+		}
+	}
+	return pol
 }
